@@ -89,13 +89,16 @@ Proof. induction 1; simpl; congruence. Qed.
 Lemma same_plain_flat e t : plain t = true -> plain e = false -> same e t = false.
 Proof. destruct e, t; simpl; intros; try reflexivity; discriminate. Qed.
 
+Lemma eqt_plain_flat e t : plain t = true -> plain e = false -> comparable t && same e t = false.
+Proof. intros. rewrite same_plain_flat by assumption. apply andb_false_r. Qed.
+
 Lemma is_Nil t : plain t = true -> is_ t Nil = false.
-Proof. destruct t; simpl; intros; try reflexivity; discriminate. Qed.
+Proof. destruct t; intros; try discriminate; reflexivity. Qed.
 
 Lemma go_is_plain e t : plain t = true -> go_is e t = is_ t e.
 Proof.
   intros Ht. unfold go_is. rewrite (plain_not_nil _ Ht), orb_false_r.
-  destruct e; try reflexivity. simpl. rewrite orb_false_r. reflexivity.
+  destruct e; try reflexivity. destruct t; try discriminate; reflexivity.
 Qed.
 
 (* the chain of a stack that holds plain errors only is searched completely *)
@@ -118,11 +121,11 @@ Proof.
   intros Ht. induction e using err_ind'; intros Hw;
     try (simpl constituents; simpl existsb; rewrite orb_false_r; reflexivity).
   - apply is_Nil; assumption.
-  - change (is_ t (Multi g es)) with (same (Multi g es) t || existsb (is_ t) es).
-    rewrite same_plain_flat by auto. simpl. rewrite existsb_flat_map. apply existsb_ext_in.
+  - change (is_ t (Multi g es)) with (comparable t && same (Multi g es) t || existsb (is_ t) es).
+    rewrite eqt_plain_flat by auto. simpl. rewrite existsb_flat_map. apply existsb_ext_in.
     simpl in Hw. rewrite forallb_forall in Hw. rewrite Forall_forall in *. intros x Hx. apply H; auto.
-  - change (is_ t (Stk g n es)) with (same (Stk g n es) t || chain_is t (is_ t) es).
-    rewrite same_plain_flat by auto. simpl.
+  - change (is_ t (Stk g n es)) with (comparable t && same (Stk g n es) t || chain_is t (is_ t) es).
+    rewrite eqt_plain_flat by auto. simpl.
     simpl in Hw. rewrite forallb_forall in Hw.
     assert (Hp : Forall (fun c => plain c = true) es).
     { apply Forall_forall. intros x Hx. specialize (Hw x Hx). apply andb_true_iff in Hw. tauto. }
@@ -144,8 +147,8 @@ Proof.
   - apply is_Nil; assumption.
   - simpl. rewrite orb_false_r. reflexivity.
   - change (is_ t (Stk tag (Z.of_nat (length (c :: d :: cs))) (rev (c :: d :: cs)))) with
-      (same (Stk tag (Z.of_nat (length (c :: d :: cs))) (rev (c :: d :: cs))) t || chain_is t (is_ t) (rev (c :: d :: cs))).
-    rewrite same_plain_flat by auto. rewrite chain_is_plain by (auto using Forall_rev').
+      (comparable t && same (Stk tag (Z.of_nat (length (c :: d :: cs))) (rev (c :: d :: cs))) t || chain_is t (is_ t) (rev (c :: d :: cs))).
+    rewrite eqt_plain_flat by auto. rewrite chain_is_plain by (auto using Forall_rev').
     rewrite orb_false_l. apply existsb_rev.
 Qed.
 
@@ -159,36 +162,47 @@ Proof.
 Qed.
 
 (* leaves as targets: errors.Is finds exactly the nodes of the tree — it never invents a match *)
-Definition leaf (e : err) : bool := match e with Const _ | Ptr _ | Typed _ _ => true | _ => false end.
+Definition leaf (e : err) : bool := match e with Const _ | Ptr _ | Typed _ _ | TypedU _ _ => true | _ => false end.
+
+(* "n is the target t": Go's == for comparable targets; equal type and contents (the type's Is method) for the
+   uncomparable user types, for which == is never used *)
+Definition eqv (n t : err) : bool :=
+  (comparable t && same n t) ||
+  match n, t with TypedU a i, TypedU b j => (a =? b) && (i =? j) | _, _ => false end.
 
 Lemma leaf_plain t : leaf t = true -> plain t = true.
 Proof. destruct t; simpl; congruence. Qed.
 
-Lemma const_is_leaf t s : leaf t = true -> same (Const s) t || const_is t s = same (Const s) t.
+Lemma const_is_leaf t s : leaf t = true -> comparable t && same (Const s) t || const_is t s = eqv (Const s) t.
 Proof.
-  intros Ht. unfold const_is. destruct t; try discriminate; simpl.
+  intros Ht. unfold const_is, eqv. destruct t; try discriminate; simpl.
   - destruct (s =? 0) eqn:E0; simpl.
-    + apply orb_false_r.
-    + rewrite (Z.eqb_sym s0 s). apply orb_diag.
+    + reflexivity.
+    + rewrite (Z.eqb_sym s0 s). rewrite orb_diag, orb_false_r. reflexivity.
+  - destruct (s =? 0); reflexivity.
   - destruct (s =? 0); reflexivity.
   - destruct (s =? 0); reflexivity.
 Qed.
 
 Theorem is_exactly_nodes t e :
-  leaf t = true -> wf e = true -> go_is e t = existsb (fun n => same n t) (nodes e).
+  leaf t = true -> wf e = true -> go_is e t = existsb (fun n => eqv n t) (nodes e).
 Proof.
   intros Ht. pose proof (leaf_plain _ Ht) as Hp. rewrite go_is_plain by assumption.
-  induction e using err_ind'; intros Hw; try (simpl; rewrite ?orb_false_r; reflexivity).
-  - change (is_ t (Const s)) with (same (Const s) t || const_is t s). rewrite const_is_leaf by assumption.
+  induction e using err_ind'; intros Hw;
+    try (simpl nodes; simpl existsb; unfold eqv; simpl is_; rewrite ?orb_false_r; reflexivity).
+  - change (is_ t (Const s)) with (comparable t && same (Const s) t || const_is t s). rewrite const_is_leaf by assumption.
     simpl. rewrite orb_false_r. reflexivity.
-  - simpl in Hw. simpl. destruct (is_nil e) eqn:En.
+  - simpl in Hw. simpl nodes. simpl existsb.
+    change (is_ t (Wrap1 g e)) with (comparable t && same (Wrap1 g e) t || (if is_nil e then false else is_ t e)).
+    unfold eqv at 1. rewrite orb_false_r. f_equal. destruct (is_nil e) eqn:En.
     + destruct e; try discriminate. destruct t; try discriminate; reflexivity.
-    + rewrite IHe by assumption. reflexivity.
-  - change (is_ t (Multi g es)) with (same (Multi g es) t || existsb (is_ t) es).
-    simpl nodes. simpl existsb. f_equal. rewrite existsb_flat_map. apply existsb_ext_in.
+    + apply IHe. assumption.
+  - change (is_ t (Multi g es)) with (comparable t && same (Multi g es) t || existsb (is_ t) es).
+    simpl nodes. simpl existsb. unfold eqv at 1. rewrite orb_false_r. f_equal.
+    rewrite existsb_flat_map. apply existsb_ext_in.
     simpl in Hw. rewrite forallb_forall in Hw. rewrite Forall_forall in *. intros x Hx. apply H; auto.
-  - change (is_ t (Stk g n es)) with (same (Stk g n es) t || chain_is t (is_ t) es).
-    simpl nodes. simpl existsb. f_equal.
+  - change (is_ t (Stk g n es)) with (comparable t && same (Stk g n es) t || chain_is t (is_ t) es).
+    simpl nodes. simpl existsb. unfold eqv at 1. rewrite orb_false_r. f_equal.
     simpl in Hw. rewrite forallb_forall in Hw.
     assert (Hpl : Forall (fun c => plain c = true) es).
     { apply Forall_forall. intros x Hx. specialize (Hw x Hx). apply andb_true_iff in Hw. tauto. }
@@ -301,6 +315,7 @@ Proof.
   - simpl. destruct k; simpl; intros Hv; inv Hv; auto.
   - simpl. destruct k; simpl; intros Hv; inv Hv.
   - simpl. destruct k; simpl; [discriminate|]. destruct (t =? ty) eqn:E; intros Hv; inv Hv. simpl. rewrite E. auto.
+  - simpl. destruct k; simpl; [discriminate|]. destruct (t =? ty) eqn:E; intros Hv; inv Hv. simpl. rewrite E. auto.
   - change (as_ k (Wrap1 g e)) with (if assignable k (Wrap1 g e) then Some (Wrap1 g e) else if is_nil e then None else as_ k e).
     replace (assignable k (Wrap1 g e)) with false by (destruct k; reflexivity).
     destruct (is_nil e); [discriminate|]. intros Hv. apply IHe in Hv as [H1 H2]. split; [assumption|]. simpl. auto.
@@ -393,8 +408,8 @@ Proof.
     intros t Ht Hw. rewrite go_is_plain by assumption.
     rewrite (existsb_ext_in _ (is_ t)) by (apply Forall_forall; intros; apply go_is_plain; assumption).
     rewrite is_supplied, E by assumption.
-    change (is_ t (Stk tag (Z.of_nat (length (c :: cs))) (rev (c :: cs)))) with (same (Stk tag (Z.of_nat (length (c :: cs))) (rev (c :: cs))) t || chain_is t (is_ t) (rev (c :: cs))).
-    rewrite same_plain_flat by auto. rewrite chain_is_plain by (auto using Forall_rev'). rewrite orb_false_l. apply existsb_rev.
+    change (is_ t (Stk tag (Z.of_nat (length (c :: cs))) (rev (c :: cs)))) with (comparable t && same (Stk tag (Z.of_nat (length (c :: cs))) (rev (c :: cs))) t || chain_is t (is_ t) (rev (c :: cs))).
+    rewrite eqt_plain_flat by auto. rewrite chain_is_plain by (auto using Forall_rev'). rewrite orb_false_l. apply existsb_rev.
 Qed.
 
 (* when only nils and plain errors are added: Len is the number of non-nil Adds, Resolve is nil iff there was none *)
@@ -451,7 +466,7 @@ Theorem wrap_is tag ann e t :
   go_is (wrap tag ann e) t = go_is e t || same (Ptr ann) t.
 Proof.
   intros Ht Hw Hok. unfold wrap. rewrite Hok. rewrite is_join_iff by (repeat constructor; assumption).
-  simpl. rewrite orb_false_r. f_equal. rewrite go_is_plain by assumption. simpl. rewrite orb_false_r. reflexivity.
+  simpl. rewrite orb_false_r. f_equal. rewrite go_is_plain by assumption. destruct t; try discriminate; simpl; rewrite ?orb_false_r; reflexivity.
 Qed.
 
 (* RemoveOk / Append drop only operands that hold nothing: joining what they keep is joining everything *)
@@ -488,6 +503,86 @@ Proof.
     assert (Hs : supplied [Stk tag 0 (tl es)] = tl es) by (unfold supplied; simpl flat_map; rewrite app_nil_r; exact Hc).
     rewrite Hs in Hn. contradiction.
 Qed.
+
+(* ------------------------------------------------------------------ FilterExclude, erc.Consume / Stream *)
+
+Theorem filter_exclude_result excl e : filter_exclude excl e = Nil \/ filter_exclude excl e = e.
+Proof. unfold filter_exclude. destruct excl; auto. destruct (ok e || ers_is e (e0 :: excl)); auto. Qed.
+
+Theorem filter_exclude_keeps excl e : ok e = false -> ers_is e excl = false -> filter_exclude excl e = e.
+Proof. unfold filter_exclude. intros -> ->. destruct excl; reflexivity. Qed.
+
+(* the subtlety: the filter is all-or-nothing — one excluded constituent drops the whole aggregate, and with it
+   every other error the aggregate holds *)
+Theorem filter_exclude_aggregate tag es t :
+  plain t = true -> Forall (fun e => wf e = true) es -> existsb (fun e => go_is e t) es = true ->
+  filter_exclude [t] (join tag es) = Nil.
+Proof.
+  intros Ht Hw Hex. unfold filter_exclude. destruct (ok (join tag es)) eqn:Eo; [reflexivity|].
+  unfold ers_is. simpl existsb. rewrite is_join_iff, Hex by assumption.
+  destruct (join tag es); try reflexivity. discriminate.
+Qed.
+
+(* Consume / Stream: the collector ends up holding exactly what was added before, what the stream delivered,
+   what the iterator carried (AddError, failing source) and — when the loop was cancelled — the context error *)
+Theorem consume_holds_exactly tag adds pre steps cancelled :
+  let c := consume (coll_adds coll_zero adds) pre steps cancelled in
+  let held := supplied adds ++ consumed pre steps cancelled in
+  coll_len c = Z.of_nat (length held)
+  /\ (coll_resolve tag c = Nil <-> held = [])
+  /\ unwind (coll_resolve tag c) = rev held
+  /\ (forall t, plain t = true -> Forall (fun e => wf e = true) held ->
+        go_is (coll_resolve tag c) t = existsb (fun e => go_is e t) held).
+Proof.
+  cbv zeta. set (held := supplied adds ++ consumed pre steps cancelled).
+  assert (Hp : Forall (fun c => plain c = true) held).
+  { apply Forall_app. split; [apply supplied_plain|apply consumed_plain]. }
+  assert (Hs : supplied held = held) by (apply flat_map_plain; assumption).
+  assert (Hc : consume (coll_adds coll_zero adds) pre steps cancelled = coll_adds coll_zero held).
+  { rewrite consume_spec, !coll_adds_spec, Hs, pushed_app. reflexivity. }
+  rewrite Hc. pose proof (collector_holds_exactly tag held) as H. cbv zeta in H. rewrite Hs in H. exact H.
+Qed.
+
+(* never loses: everything supplied is held ... *)
+Theorem consume_never_loses adds pre steps cancelled d f cn x c :
+  observe_spec steps cancelled = (d, f, cn) ->
+  In x adds \/ In x pre \/ In x d \/ In x f -> In c (constituents x) ->
+  In c (supplied adds ++ consumed pre steps cancelled).
+Proof.
+  intros E Hx Hc. unfold consumed. rewrite E. unfold supplied. rewrite !in_app_iff, !in_flat_map.
+  destruct Hx as [Hx|[Hx|[Hx|Hx]]].
+  - left. eauto.
+  - right. right. right. exists x. split; [apply in_or_app; auto|assumption].
+  - right. left. eauto.
+  - right. right. right. exists x. split; [apply in_or_app; auto|assumption].
+Qed.
+
+(* ... never invents: everything held was supplied, or is the context error of a cancelled loop *)
+Theorem consume_never_invents adds pre steps cancelled d f cn c :
+  observe_spec steps cancelled = (d, f, cn) ->
+  In c (supplied adds ++ consumed pre steps cancelled) ->
+  (cn = true /\ c = ctx_canceled) \/ exists x, (In x adds \/ In x pre \/ In x d \/ In x f) /\ In c (constituents x).
+Proof.
+  intros E. unfold consumed. rewrite E. unfold supplied. rewrite !in_app_iff, !in_flat_map.
+  intros [(x & H1 & H2)|[(x & H1 & H2)|[H|(x & H1 & H2)]]].
+  - right. eauto.
+  - right. exists x. auto.
+  - destruct cn; [|destruct H]. destruct H as [H|[]]. left. auto.
+  - right. exists x. apply in_app_or in H1. split; [tauto|assumption].
+Qed.
+
+Example ex_consume :
+  (* two iterator errors, one delivered item, then the context is cancelled: nothing is lost *)
+  let c := consume (coll_adds coll_zero [Const 2]) [Const 3; Typed 1 210] [(0, Ptr 100); (2, Ptr 101); (0, Ptr 102)] false in
+  unwind (coll_resolve 9 c) = [Typed 1 210; Const 3; ctx_canceled; Ptr 101; Ptr 100; Const 2]
+  /\ filter_exclude [ctx_canceled] (join 1 [join 2 [Const 3; Typed 1 210]; ctx_canceled]) = Nil.
+Proof. vm_compute. split; reflexivity. Qed.
+
+Example ex_uncomparable :
+  let u := TypedU 4 240 in let r := join 1 [u; Const 2] in
+  go_is r (TypedU 4 240) = true /\ go_is r (TypedU 4 241) = false /\ go_is r (TypedU 5 240) = false
+  /\ go_as r (KTyped 4) = Some u.
+Proof. vm_compute. repeat split. Qed.
 
 (* ------------------------------------------------------------------ programs *)
 
